@@ -47,7 +47,7 @@ impl Prop for C03 {
 
     fn profiles(tier: Tier) -> Vec<Profile> {
         match tier {
-            Tier::Quick => vec![prof("block", 40_000), prof("dyadic", 20_000)],
+            Tier::Quick => vec![prof("block", 120_000), prof("dyadic", 60_000)],
             Tier::Thorough => vec![prof("block", 1_600_000), prof("dyadic", 800_000)],
         }
     }
